@@ -6,9 +6,19 @@ import (
 	"encoding/json"
 	"fmt"
 	"math"
+	"unicode/utf8"
 
 	"github.com/google/mtail/internal/zzverif/vlib"
 )
+
+func allValidUTF8(ss []string) bool {
+	for _, s := range ss {
+		if !utf8.ValidString(s) {
+			return false
+		}
+	}
+	return true
+}
 
 // jsonView checks the metric's JSON marshalling (what /json and the store dump
 // show) against the listing EmitLabelSets just gave: the same live tuples, once
@@ -52,6 +62,13 @@ func (r *Runner) jsonView(listing []Entry) {
 		want := vlib.UnQs(e.Ls)
 		if len(want) == 0 && len(j.Labels) == 0 {
 			// a metric without keys
+		} else if !allValidUTF8(want) {
+			// encoding/json writes U+FFFD for bytes that are not valid UTF-8: the JSON
+			// view cannot carry such a label; its position, value and time still count
+			if len(want) != len(j.Labels) {
+				r.Prob = append(r.Prob, fmt.Sprintf("JSON view label set %d has %d labels, EmitLabelSets gives %d", i, len(j.Labels), len(want)))
+				continue
+			}
 		} else if fmt.Sprint(want) != fmt.Sprint(j.Labels) || len(want) != len(j.Labels) {
 			r.Prob = append(r.Prob, fmt.Sprintf("JSON view label set %d is %q, EmitLabelSets gives %q", i, j.Labels, want))
 			continue
